@@ -45,6 +45,8 @@ static const KnownDefect KNOWN_DEFECTS[] = {
     {"icu-cantranscodeto-supplementary", "ICUTranscoder::canTranscodeTo builds the surrogate pair without subtracting 0x10000 and so tests a different (or ill-formed) character"},
     {"icu-unrepresentable-overread", "ICUTranscoder::transcodeTo reads *startSrc for the error message after ICU advanced it past the offending character: one XMLCh past the end of the source buffer when that character is the last one (ASan: heap-buffer-overflow READ 2)"},
     {"icu-illegal-input-substituted", "ICUTranscoder::transcodeFrom leaves ICU's default to-Unicode callback (SUBSTITUTE) installed: illegal and unassigned byte sequences of every ICU-provided encoding are decoded as U+FFFD / U+001A instead of raising TranscodingException"},
+    {"ucs4-bom-shift-overread", "XMLReader::doInitDecode removes a UCS-4 BOM with 'for (i = 0; i < fRawBytesAvail; i++) fRawByteBuf[i] = fRawByteBuf[i+4]': with a full raw buffer (document >= 49152 bytes) it indexes fRawByteBuf[49152..49155] (UBSan: index out of bounds for XMLByte[49152])"},
+    {"contradictory-endian-decl-misaligned-read", "XMLReader::setEncoding accepts an endian-specific UTF-16/UCS-4 name (e.g. UTF-16BE) in a document auto-sensed as UTF-8/single-byte without a family check and hands fRawByteBuf+odd offset to XMLUTF16Transcoder::transcodeFrom, which loads char16_t through a misaligned pointer (UBSan: load of misaligned address; seen once the document spans more than one raw buffer)"},
     {"icu-truncated-input-swallowed", "ICUTranscoder::transcodeFrom (flush=false) consumes a truncated trailing sequence into converter state; TranscodeFromStr and XMLReader then see a clean end of input"},
     {"icu-decode-pair-overflow-lost", "ICUTranscoder::transcodeFrom with room for one XMLCh and a supplementary character next: ICU emits the high surrogate, reports the bytes eaten and keeps the low surrogate in its internal overflow buffer; it is lost when the input ends there"},
     {"icu-encode-overflow-lost", "ICUTranscoder::transcodeTo when a character straddles the end of the output block: the character is reported eaten while part of its bytes stay in ICU's internal overflow buffer; the tail is lost when the caller stops (TranscodeToStr), or the next call fills the block from that buffer, eats nothing and is misreported as Trans_Unrepresentable"},
